@@ -288,13 +288,15 @@ def main(argv=None):
     next_index = 0
     sample_upto = 3
     ctx = multiprocessing.get_context("fork")
-    hard_deadline = t0 + budget * 4 + 300
+    tb0 = time.monotonic()          # the batch budget starts after the canonical replays
+    min_runs = min(max_runs, getattr(mod, "MIN_RUNS", 2 * chunk))
+    hard_deadline = tb0 + budget * 4 + 300
     with cf.ProcessPoolExecutor(max_workers=workers, mp_context=ctx) as ex:
         pending = set()
         stop_submitting = False
         while True:
             now = time.monotonic()
-            if now - t0 >= budget or next_index >= max_runs:
+            if (now - tb0 >= budget and next_index >= min_runs) or next_index >= max_runs:
                 stop_submitting = True
             while not stop_submitting and len(pending) < workers + 2 and next_index < max_runs:
                 idx = list(range(next_index, min(next_index + chunk, max_runs)))
@@ -334,7 +336,7 @@ def main(argv=None):
                 v["alltags"] = sorted(set(results[idx]["tags"]) | set(v.get("tags", [])))
         except HarnessError as e:
             harness_errors.append({"i": idx, "harness_error": str(e)[:2000]})
-    batch_wall = time.monotonic() - t0
+    batch_wall = time.monotonic() - tb0
     order = sorted(results)
 
     # 3. violations: minimise, attribute, replay-verify, report
